@@ -78,6 +78,22 @@ let h_roundtrip (a : string array) : string =
                 let s2 = (match text_of t2 with Ok (Some x) -> hex_of_bytes x | Ok None -> "NULL" | _ -> "MODEL_OOB") in
                 hex_of_bytes s ^ " | " ^ dump_node t2 ^ " | " ^ s2))
 
+(* printall <prebuffer> <n> <alloc:hooks|realloc> <tree>
+     -> P=<hex|NULL> U=.. B1=.. B0=.. A1=<flag>:<hex|-> A0=<flag>:<hex|->     all entry points on one tree (C04, C05) *)
+let h_printall (a : string array) : string =
+  let pre = int_of_string a.(1) in let n = int_of_string a.(2) in let have_realloc = a.(3) = "realloc" in
+  let pos = ref 4 in let t = parse_node a pos in
+  let txt r = (match r with Ok pr -> text_of_block pr.prr_block | OOB -> "MODEL_OOB" | OutOfFuel -> "MODEL_OUTOFFUEL") in
+  let pa fmt =
+    let buf = List.init (if n > 0 then n else 0) (fun i -> z_of_int (pattern 1 i)) in
+    (match run_print_preallocated t (Some buf) (z_of_int n) fmt with
+     | Ok r -> if r.par_flag then "1:" ^ (match r.par_buffer with Some b -> (match cstr_checked b with Ok x -> hex_of_bytes x | _ -> "UNTERMINATED") | None -> "-") else "0:-"
+     | OOB -> "MODEL_OOB" | OutOfFuel -> "MODEL_OUTOFFUEL") in
+  Printf.sprintf "P=%s U=%s B1=%s B0=%s A1=%s A0=%s"
+    (txt (run_print t true have_realloc O)) (txt (run_print t false have_realloc O))
+    (txt (run_print_buffered t (z_of_int pre) true have_realloc O)) (txt (run_print_buffered t (z_of_int pre) false have_realloc O))
+    (pa true) (pa false)
+
 (* fmtnum <bits> -> <%d of sat_int> <%1.15g> <%1.17g> <bits of strtod(%1.15g)> <bits of strtod(%1.17g)>   (reference libc vs glibc) *)
 let h_fmtnum (a : string array) : string =
   let d = dbl_of_tok a.(1) in
@@ -86,5 +102,5 @@ let h_fmtnum (a : string array) : string =
   String.concat " " [hex_of_bytes (fmt_d (sat_int d)); hex_of_bytes g15; hex_of_bytes g17; back g15; back g17]
 
 let handlers : (string * (string array -> string)) list = [
-  ("print", h_print); ("prealloc", h_prealloc); ("roundtrip", h_roundtrip); ("fmtnum", h_fmtnum);
+  ("print", h_print); ("prealloc", h_prealloc); ("roundtrip", h_roundtrip); ("printall", h_printall); ("fmtnum", h_fmtnum);
 ]
